@@ -51,6 +51,7 @@ class C06(Check):
                                        cfgs=G + (menu[::4] if tier == 'quick' else menu))
         yield from families.seats_ties(4, spaces.BU(4), seats=(1, 2, 3), ties='id', cfgs=G)
         yield from families.repo_files(G, max_bytes=4000 if tier == 'quick' else 10 ** 7)
+        yield from families.corner_corpus(G)
         if tier == 'thorough':
             yield from families.seats_ties(4, spaces.W(4, 2, 4, (1, 2, 3)), seats=(2, 3), ties='id', cfgs=G + menu[::6])
             yield from families.seats_ties(3, spaces.U(3, 6, 6), cfgs=G)
